@@ -573,7 +573,10 @@ func (fx *FnExec) EvalPureCB(fn *ssa.Function, args []Value, st *State, fuel int
 func (fx *FnExec) HavocLoc(st *State, o *Object, p Path, site string) {
 	cur, ok := st.Heap[o]
 	if !ok {
-		if gv, ok2 := fx.Cx.globalHeap[o]; ok2 {
+		fx.Cx.mu.Lock()
+		gv, ok2 := fx.Cx.globalHeap[o]
+		fx.Cx.mu.Unlock()
+		if ok2 {
 			cur = gv
 		} else {
 			return
